@@ -120,7 +120,7 @@ def tlc_mc(module, env, workers=8, timeout=1800, emit=True, invariants=None):
     envs = dict(env)
     if emit:
         envs['V_EMIT'] = '1'
-    key = hashlib.sha256((spec_hash() + module + json.dumps(envs, sort_keys=True) + json.dumps(invariants)).encode()).hexdigest()[:20]
+    key = hashlib.sha256((spec_hash() + module + json.dumps(envs, sort_keys=True) + json.dumps(invariants) + 'v2-dumptrace').encode()).hexdigest()[:20]
     d = os.path.join(BUILD, 'cache', 'mc', key)
     statf = os.path.join(d, 'stats.json')
     if os.path.exists(statf):
@@ -152,8 +152,8 @@ def tlc_mc(module, env, workers=8, timeout=1800, emit=True, invariants=None):
         cfgpath = os.path.join(d, module + '_wit.cfg')
         open(cfgpath, 'w').write('\n'.join(keep) + '\n')
     with open(out, 'w') as f:
-        p = subprocess.run(['timeout', str(timeout), 'tlc', '-workers', str(workers), '-metadir', meta, '-cleanup',
-                            '-noGenerateSpecTE', '-config', cfgpath,
+        p = subprocess.run(['timeout', str(timeout), 'tlc', '-workers', str(workers), '-dumpTrace', 'json', os.path.join(d, 'trace.json'),
+                            '-metadir', meta, '-cleanup', '-noGenerateSpecTE', '-config', cfgpath,
                             os.path.join(SPEC, module + '.tla')],
                            env={**os.environ, **{k: str(v) for k, v in envs.items()}}, stdout=f,
                            stderr=subprocess.STDOUT, cwd=d)
@@ -236,6 +236,7 @@ LAT_CONFIGS = {
             ('ring8-convex-bounds', q(**{**REG, 'V_REGION_HI': 4})),
             ('line5-allworlds', q(V_TOPO='line', V_N=5, V_MAXD=2, V_LVS=1, V_BIAS='p', V_MAXT=3, V_MAXCALLS=2, V_WORLDS='all')),
             ('ring6-few', q(V_TOPO='ring', V_N=6, V_MAXD=2, V_LVS=2, V_BIAS='0', V_MAXT=3, V_MAXCALLS=2, V_WORLDS='few')),
+            ('grid3x3', q(V_TOPO='grid', V_N=9, V_W=3, V_MAXD=2, V_LVS=1, V_BIAS='0', V_MAXT=2, V_MAXCALLS=2, V_WORLDS='few', V_PROBLEMS='one')),
             ('line5-api', q(V_TOPO='line', V_N=5, V_MAXD=2, V_LVS=1, V_BIAS='1', V_MAXT=1, V_MAXCALLS=4, V_WORLDS='few', V_PROBLEMS='one')),
         ],
         'thorough': [
@@ -251,6 +252,7 @@ LAT_CONFIGS = {
             ('ring8-convex-bounds', q(**{**REG, 'V_REGION_HI': 4})),
             ('line5-allworlds', q(V_TOPO='line', V_N=5, V_MAXD=2, V_RAD2=5, V_LVS=1, V_BIAS='p', V_MAXT=2, V_MAXCALLS=2, V_WORLDS='all')),
             ('ring6-rewire', q(V_TOPO='ring', V_N=6, V_MAXD=2, V_RAD2=3, V_LVS=1, V_BIAS='0', V_MAXT=3, V_MAXCALLS=2, V_WORLDS='few', V_PROBLEMS='one')),
+            ('grid3x2', q(V_TOPO='grid', V_N=6, V_W=3, V_MAXD=2, V_RAD2=5, V_LVS=1, V_BIAS='0', V_MAXT=3, V_MAXCALLS=2, V_WORLDS='few', V_PROBLEMS='one')),
             ('line5-api', q(V_TOPO='line', V_N=5, V_MAXD=2, V_RAD2=5, V_LVS=1, V_BIAS='1', V_MAXT=1, V_MAXCALLS=4, V_WORLDS='free', V_PROBLEMS='one')),
         ],
         'thorough': [
@@ -266,6 +268,7 @@ LAT_CONFIGS = {
             ('ring8-convex-bounds', q(**{**REG, 'V_REGION_HI': 4})),
             ('line5-allworlds', q(V_TOPO='line', V_N=5, V_MAXD=2, V_LVS=1, V_BIAS='p', V_MAXT=2, V_MAXCALLS=2, V_WORLDS='all')),
             ('ring6-few', q(V_TOPO='ring', V_N=6, V_MAXD=1, V_LVS=1, V_BIAS='0', V_MAXT=3, V_MAXCALLS=2, V_WORLDS='few', V_PROBLEMS='one')),
+            ('grid3x2', q(V_TOPO='grid', V_N=6, V_W=3, V_MAXD=2, V_LVS=1, V_BIAS='0', V_MAXT=2, V_MAXCALLS=2, V_WORLDS='few', V_PROBLEMS='one')),
             ('line5-api', q(V_TOPO='line', V_N=5, V_MAXD=2, V_LVS=1, V_BIAS='1', V_MAXT=1, V_MAXCALLS=4, V_WORLDS='free', V_PROBLEMS='one')),
         ],
         'thorough': [
@@ -279,6 +282,7 @@ LAT_CONFIGS = {
         'quick': [
             ('line5-allworlds', q(V_TOPO='line', V_N=5, V_RAD2=5, V_LVS=1, V_BUILD=2, V_MAXCALLS=3, V_WORLDS='all', V_PROBLEMS='one')),
             ('ring6-api', q(V_TOPO='ring', V_N=6, V_RAD2=3, V_LVS=1, V_BUILD=1, V_MAXCALLS=5, V_WORLDS='few', V_PROBLEMS='one')),
+            ('grid3x2', q(V_TOPO='grid', V_N=6, V_W=3, V_RAD2=5, V_LVS=1, V_BUILD=2, V_MAXCALLS=3, V_WORLDS='few', V_PROBLEMS='one')),
         ],
         'thorough': [
             ('line5-many', q(V_TOPO='line', V_N=5, V_RAD2=5, V_LVS=1, V_BUILD=2, V_MAXCALLS=3, V_WORLDS='all')),
@@ -377,10 +381,52 @@ def lattice_engine(planner, tier, seed, api=False):
         res['events'] += events
         for t in traces:
             os.remove(t)
+    # Witness configurations: each must be violated; the input history of TLC's counterexample is
+    # then executed on the real planner and validated like any other history (directed coverage of
+    # the interesting branches, and a regression test for every deviation that was repaired).
+    whist = []
     for wname, module, env, expect, invs in ([] if api else WITNESSES.get(planner, [])):
         st = tlc_mc(module, env, emit=False, timeout=600, invariants=invs)
         res['witnesses'].append({'switch': wname, 'expected_violation': expect, 'violated': st['violated'],
                                  'as_expected': any(e in st['violated'] for e in expect)})
+        tj = os.path.join(st['dir'], 'trace.json')
+        if st['violated'] and os.path.exists(tj):
+            try:
+                last = json.load(open(tj))['counterexample']['state'][-1][1]
+                e = lambda k, dflt: env.get(k, dflt)
+                kind = e('V_TOPO', 'line')
+                n = int(e('V_N', 5))
+                w = int(e('V_W', 3))
+                whist.append({'planner': planner, 'topo': {'kind': kind, 'n': n, 'w': w if kind == 'grid' else n},
+                              'maxd': int(e('V_MAXD', 2)), 'rad2': int(e('V_RAD2', 5)) if planner in ('rrtstar', 'prm') else 0,
+                              'lvs': int(e('V_LVS', 1)), 'bias': e('V_BIAS', 'p') if planner != 'prm' else '0', 'seeded': True,
+                              'build': int(e('V_BUILD', 2)), 'valid': last['valid'], 'probs': last['probs'], 'calls': last['hist'],
+                              'witness': wname})
+            except Exception as ex:  # noqa
+                log(f'[witness] could not extract the counterexample history of {wname}: {ex}')
+    if whist:
+        hist = os.path.join(work, 'witness.hist')
+        with open(hist, 'w') as f:
+            for h in whist:
+                f.write(json.dumps(h) + '\n')
+        trace = os.path.join(work, 'witness.trace')
+        p, killed = run_guarded([os.path.join(HARNESS_BIN, 'latreplay'), '--in', hist, '--out', trace, '--twice', '--seed', str(seed)],
+                                work, timeout=600)
+        viols, events = tlc_monitor([trace])
+        for k in killed:
+            viols.append({'run': k, 'line': 0, 'labels': list(KILL_LABELS), 'trace': None})
+        for v in viols:
+            for lab in v['labels']:
+                res['label_counts'][lab] = res['label_counts'].get(lab, 0) + 1
+                res['violations'].append({'label': lab, 'planner': planner, 'engine': ename, 'cfg': 'witness-replays', 'run': v['run'],
+                                          'line': v['line'], 'mode': 'lattice', 'input': whist[v['run'] - 1]})
+        res['configs'].append({'name': 'witness-replays', 'env': {}, 'states': 0, 'transitions': 0, 'histories': len(whist), 'runs': len(whist),
+                               'events': events, 'distinct_final_snapshots': len(whist), 'script_overruns': 0,
+                               'violating_events': len(viols), 'mc_cached': True, 'wall_s': 0,
+                               'witnesses_replayed': [h['witness'] for h in whist]})
+        res['traces'] += len(whist)
+        res['events'] += events
+        os.remove(trace)
     return res
 
 
